@@ -447,7 +447,7 @@ func (w *verifC39World) firstUnapplied() int {
 
 // pump: the orchestrator lists the outbox after its cursor and delivers up
 // to k rows, optionally mixing in duplicates of earlier deltas.
-func (w *verifC39World) pump(k int, dups []int) bool {
+func (w *verifC39World) pump(k int, dups []int, repeatFirst ...int) bool {
 	rows, err := w.dbS.ListHashSlotMigrationOutbox(context.Background(), verifC39H, verifC39Src, verifC39Tgt, w.cursorIdx, k)
 	if err != nil {
 		w.rt.Fatalf("ListHashSlotMigrationOutbox: %v", err)
@@ -481,6 +481,12 @@ func (w *verifC39World) pump(k int, dups []int) bool {
 		}
 		// a duplicate may only precede first deliveries it does not overtake: insert applied ones anywhere
 		batch = append(batch[:at], append([]int{d}, batch[at:]...)...)
+	}
+	// the same new delta again later in the same batch (after the rows that follow it)
+	for _, r := range repeatFirst {
+		if len(positions) > 0 {
+			batch = append(batch, positions[r%len(positions)])
+		}
 	}
 	w.deliver("pump", batch)
 	if len(positions) > 0 {
@@ -735,7 +741,11 @@ func (w *verifC39World) actPump(rt *rapid.T) {
 			dups = append(dups, rapid.SampledFrom(ap).Draw(rt, "dupPos"))
 		}
 	}
-	if !w.pump(k, dups) {
+	var rep []int
+	if rapid.IntRange(0, 9).Draw(rt, "repeatInBatch") < 3 {
+		rep = append(rep, rapid.IntRange(0, 2).Draw(rt, "repeatWhich"))
+	}
+	if !w.pump(k, dups, rep...) {
 		rt.Skip()
 	}
 }
